@@ -3,7 +3,7 @@ CONSTANTS Claims = {"c1", "c2", "c3"}  MaxNow = 1000  MaxFaults = 1  MaxEnv = 2 
           EA = 600  LT = 300  RT = 900  TolReady = 120  TolUnk = 90  TolDisk = 60  UnknownFirst = TRUE
           PoolBg = {4}  OtherBg = {5}  MaxBad = 1  MaxDel = 1  ReadyVals = {"True", "False"}
           RoundedClock = {}  ExpireSlack = 0  ExpireNever = "check"  GcOnProvListError = "abort"  GcOnLookupError = "skip"  GcReady = "check"  NotFoundAsEmpty = {"nodeLookup"}  GcReadOrder = "claimsFirst"  LiveGate = "registered"
-          LiveSlack = 0  RepairSlack = 0  RepairTolBy = "policy"  RepairExtra = 0  RepairScope = "pool"  RepairOnListError = "abort"  RepairTerminating = "count"
+          LiveSlack = 0  RepairSlack = 0  RepairTolBy = "policy"  RepairAnnotated = "check"  RepairExtra = 0  RepairScope = "pool"  RepairOnListError = "abort"  RepairTerminating = "count"
 SPECIFICATION Spec
 VIEW view
 INVARIANTS Inv_C16_Expiration Inv_C16_GarbageCollection Inv_C16_Liveness Inv_C16_Repair
